@@ -2,12 +2,12 @@ package main
 
 import (
 	"bytes"
-	"regexp"
 	"context"
 	"fmt"
 	"os"
 	"os/exec"
 	"path/filepath"
+	"regexp"
 	"strings"
 	"sync"
 	"time"
